@@ -15,7 +15,7 @@ UNITS = {
     'routing': {'template': 'units/routing/unit.rs', 'serves': ['C16'], 'min_verified': 42},
     'votor': {'template': 'units/votor/unit.rs', 'serves': ['C05'], 'min_verified': 60},
     'parent_ready': {'template': 'units/parent_ready/unit.rs', 'serves': ['C07'], 'min_verified': 64},
-    'repair': {'template': 'units/repair/unit.rs', 'serves': ['C14'], 'min_verified': 14},
+    'repair': {'template': 'units/repair/unit.rs', 'serves': ['C14', 'C15'], 'min_verified': 14},
     'slot_state': {'template': 'units/slot_state/unit.rs', 'serves': ['C03', 'C04', 'C06'], 'min_verified': 88},
 }
 
